@@ -43,6 +43,14 @@ INFO = {
  "C16c": ("mod_n_from_hash drops the carry of adding carry1 into the middle limb of the quotient estimate", "Ha with top 8 bytes equal to the top limb of N-1 and a low-limb carry (2^-64): result is not (Ha mod (N-1)) + 1"),
  "C19c": ("encrypt_asn1 passes its `compressed` argument on to encrypt but still slices a 65-byte C1", "encrypt_asn1(.., compressed = true, ..): wrong INTEGER y / hash / ciphertext fields, panic for messages < 32 bytes"),
  "C20c": ("SM9 verify_sign range check `h >= N` became `h > N`", "h = N: the assert in Fp12::pow panics instead of an error"),
+ "C01c": ("pad(): zero fill computed as 64 - (len + 8) % 64 without the outer modulo", "a message of length 55 mod 64 (the exact-fit case): 64 zero bytes too many, one block too many"),
+ "C02c": ("Sm4Cipher::new assembles the last key word with `k[15] as i8 as u32` (sign extension)", "a key whose last byte is >= 0x80: bytes 12..14 of the key are ignored"),
+ "C04c": ("verify_raw compares R and r through a fold with `(a ^ b) as u32`: only the low 32 bits of each limb", "a forged (r', s') whose r' differs from R only in the high halves of limbs (constructible by the key holder)"),
+ "C07c": ("CBC decrypt pad check written as `!(0..=0x10).contains(&last)`: pad byte 0 accepted", "a ciphertext whose last decrypted byte is 0x00: returned unstripped instead of an error"),
+ "C09c": ("twist_point_add_full: the equal / opposite special cases merged with the wrong test (y-sum instead of y-difference)", "P + P in G2, reached by verify_sign when ks = H1(ID||01): genuine signatures rejected"),
+ "C14c": ("Sm9SignMasterKey::master_key_generate draws ks with fn_random_u256, which compares limb arrays lexicographically (little-endian)", "about 28% of generated master secrets are >= N; the low limb is bounded"),
+ "C17c": ("Point::is_on_curve takes the affine fast path when z == SM9_ONE (plain one) instead of the Montgomery one", "a received point given with z limbs [1,0,0,0] (= R^-1): z is ignored and an off-curve point is accepted"),
+ "C18c": ("EEA trailing-bit mask applied when `ilen % 8 != 0` instead of `ilen % 32 != 0`", "LENGTH % 32 in {8, 16, 24}: the bits beyond LENGTH in the last word are not cleared"),
  "C07b": ("CBC decrypt bounds the PKCS#7 pad byte by the ciphertext length instead of the block size", "a ciphertext of two or more blocks whose last decrypted byte is 17..min(255, length): accepted and truncated instead of an error"),
  "C08b": ("ZUC S-box S0[0x17] changed from 0xa5 to 0xa6", "a byte 0x17 entering S0 inside F (the EEA/EIA vectors in the crate never do; the three published keystream vectors do)"),
  "C10b": ("SM9 decrypt compares only min(|C2|, 32) bytes of C3", "a message shorter than 32 bytes and a C3 modified at a byte index >= |M|"),
